@@ -69,6 +69,9 @@ type GenCfg struct {
 	InCode     int  // percent of options some of whose attributes are assigned in code instead of by tag
 	NoFlag     bool // fields marked no-flag that would otherwise declare options
 	ViaAdd     int  // percent of groups whose last option(s) are added with Group.AddOption
+	// StaticTwins: occasionally two nested groups whose struct is the same named,
+	// statically declared type (their options cannot be altered afterwards)
+	StaticTwins bool
 }
 
 // uniformInt draws an (almost exactly) uniform integer in [0, n). rapid's own
@@ -549,6 +552,22 @@ func (g *declGen) group(ns *nameSets, nsPrefix string, depth int, allowEmpty boo
 		mark := rapid.SampledFrom([]string{"s", "p", "p", "P", "e", "E"}).Draw(t, "inlineMark")
 		for i := from; i < to; i++ {
 			gr.Options[i].Inline = mark
+		}
+	}
+	// two (pointer) fields of one named struct type, told apart by their namespaces
+	if cfg.StaticTwins && depth == 0 && pct(t, "staticTwins", 4) {
+		for i, nm := range []string{"primary", "replica"} {
+			g.nGrp++
+			sub := Group{Field: g.field("G"), Desc: fmt.Sprintf("Endpoint %d %s", g.nGrp, nm), Namespace: nm, Static: true,
+				Ptr: rapid.SampledFrom([]string{"nil", "nil", "", "set"}).Draw(t, "staticPtr")}
+			sub.Options = StaticGroupOptions(fmt.Sprintf("s%d%d", g.nGrp, i))
+			for _, o := range sub.Options {
+				ns.long[nsPrefix+nm+g.nsDelim+o.Long] = true
+			}
+			if !ns.long[nsPrefix+nm+g.nsDelim+"host"] {
+				continue
+			}
+			gr.Groups = append(gr.Groups, sub)
 		}
 	}
 	if depth < cfg.NestGroups && pct(t, "nested", 35) {
